@@ -92,7 +92,7 @@ Theorem no_inversion_satisfiable :
   forall E, (forall a, e_sub E a a = true) ->
     (forall a b c, e_sub E a b = true -> e_sub E b c = true -> e_sub E a c = true) ->
     order_perm (with_order_rank E) /\ no_inversion (with_order_rank E).
-Proof. intros E R T. split; [exact (order_rank_perm E)|exact (order_rank_no_inversion E R T)]. Qed.
+Proof. exact no_inversion_satisfiable_l. Qed.
 Print Assumptions no_inversion_satisfiable.
 
 (* ... and it is NOT met by the code's sort (CPython's insertion with the partial comparator
@@ -116,7 +116,7 @@ Print Assumptions model_satisfies_law.
 Theorem executable_model_satisfies_law_except_specificity :
   forall c fuel a, run_api (env_of c) fuel a <> OOutOfFuel ->
     forall code, In code (law (env_of c) a (run_api (env_of c) fuel a)) -> code = 6%Z.
-Proof. intros c. exact (model_law_except_specificity (env_of c) (env_of_order_perm c)). Qed.
+Proof. exact exec_law_except_specificity. Qed.
 Print Assumptions executable_model_satisfies_law_except_specificity.
 
 (* Non-vacuity: a cyclic offer graph with a failing conditional factory on the short route; the search
